@@ -33,6 +33,17 @@ func Begin(what func() interface{}) {
 // for any other reason of its own, is not a blocked library call).
 func End() { current.Store(nil) }
 
+// rssMB: resident set size of this process in MB (0 if unknown).
+func rssMB() int64 {
+	b, err := os.ReadFile("/proc/self/statm")
+	if err != nil {
+		return 0
+	}
+	var size, rss int64
+	fmt.Sscanf(string(b), "%d %d", &size, &rss)
+	return rss * int64(os.Getpagesize()) >> 20
+}
+
 func cpuSeconds() float64 {
 	var ru syscall.Rusage
 	syscall.Getrusage(syscall.RUSAGE_SELF, &ru)
@@ -49,10 +60,36 @@ func StartWatchdog(c *Ctx, out string) {
 		var since float64
 		idleTicks := 0
 		lastCPU := 0.0
+		lastEvals, evalsSince := int64(-1), 0.0
 		for {
 			time.Sleep(200 * time.Millisecond)
 			cur := current.Load()
+			// memory guard: a decoder that loops while it allocates would take the machine down long before any CPU
+			// budget is used up (the sandbox has no memory limit)
+			if rssMB() > 6000 {
+				r := &WorkerResult{Counters: map[string]int64{}, Notes: map[string]int64{}, Extra: map[string]interface{}{}}
+				var raw json.RawMessage
+				if cur != nil {
+					raw, _ = json.Marshal(cur.what())
+				}
+				r.Violations = []*Violation{{Property: c.Property, Signature: "noreplay/hang", What: fmt.Sprintf("the worker's memory grew beyond 6 GB (normal: tens of MB) after %d evaluations: a call that allocates without bound (no termination within the work bound)", c.Evals), Case: raw, Count: 1}}
+				b, _ := json.Marshal(r)
+				os.WriteFile(out, b, 0o644)
+				os.Exit(0)
+			}
 			if cur == nil {
+				// checks that do not publish their cases: no evaluation completed while the process burnt four CPU
+				// budgets (an idle process — waiting for a sub-process — burns none)
+				now := cpuSeconds()
+				if c.Evals != lastEvals {
+					lastEvals, evalsSince = c.Evals, now
+				} else if now-evalsSince > 4*HangCPUBudget {
+					r := &WorkerResult{Counters: map[string]int64{}, Notes: map[string]int64{}, Extra: map[string]interface{}{}}
+					r.Violations = []*Violation{{Property: c.Property, Signature: "noreplay/hang", What: fmt.Sprintf("no evaluation completed during %.0f s of CPU time (normal cost: microseconds to milliseconds) after %d evaluations: no termination within the work bound", 4*HangCPUBudget, c.Evals), Count: 1}}
+					b, _ := json.Marshal(r)
+					os.WriteFile(out, b, 0o644)
+					os.Exit(0)
+				}
 				continue
 			}
 			now := cpuSeconds()
